@@ -42,7 +42,9 @@ func genWS(r *rand.Rand, c *genCfg, sb *strings.Builder) {
 }
 
 var interestingRunes = []rune{0, 1, 0x1f, ' ', '"', '\\', '/', '<', '>', '&', 0x7f, 0x80, 0xe9, 0x7ff, 0x800, 0x2028, 0x2029,
-	0xd7ff, 0xe000, 0xfffd, 0xfffe, 0xffff, 0x10000, 0x1f600, 0x10ffff, 'a', 'b', 'A', '_', '-', '~', '0', '1'}
+	0xd7ff, 0xe000, 0xfffd, 0xfffe, 0xffff, 0x10000, 0x1f600, 0x10ffff, 'a', 'b', 'A', '_', '-', '~', '0', '1',
+	// neighbours: same UTF-16 lead surrogate, adjacent blocks, just above the surrogates, short-escape controls
+	0x1f601, 0x1f5ff, 0x10001, 0x103ff, 0x10400, 0xe001, 0xfb00, 0x08, 0x0c, 0x0a, 0x0d, 0x09, 0x0b}
 
 func genRune(r *rand.Rand, c *genCfg) rune {
 	switch k := r.IntN(10); {
@@ -321,6 +323,24 @@ func wideObject(r *rand.Rand, n int, long bool, dupOf int, respell bool) []byte 
 			names[i] += strings.Repeat("x", 10+r.IntN(30))
 		}
 	}
+	// dupOf -2, -3, -4: the member at which the coders change how they remember names (more
+	// than 64 names or more than 1 KiB of names), the one before it, the one after it
+	if dupOf <= -2 && dupOf >= -4 {
+		sw, total := 65, 0
+		for i, nm := range names {
+			total += len(nm)
+			if total > 1024 {
+				if i < sw {
+					sw = i
+				}
+				break
+			}
+		}
+		dupOf = sw + map[int]int{-2: 0, -3: -1, -4: 1}[dupOf]
+		if dupOf >= n {
+			dupOf = n - 1
+		}
+	}
 	put := func(i int, name string, alt bool) {
 		if i > 0 {
 			sb.WriteByte(',')
@@ -369,3 +389,49 @@ func nested(depth int, pattern func(i int) bool, leaf string) []byte {
 }
 
 var _ = utf8.RuneError
+
+// sortTorture is an object (inside arrays) whose member names are hard to order: code points
+// that share a UTF-16 lead surrogate, that order differently in UTF-8 and UTF-16, prefixes
+func sortTorture(r *rand.Rand) []byte {
+	pool := []string{"\U0001F600", "\U0001F601", "\U0001F5FF", "\uFFFF", "\uE000", "\U00010000", "\U00010001", "\uD7FF",
+		"a\U0001F601", "a\U0001F600", "", "a", "a\U0001F600b", "\U0001F600\U0001F601", "\U0001F600\U0001F600", "\uFB00", "\U0010FFFF", "\U0010FFFE"}
+	r.Shuffle(len(pool), func(i, j int) { pool[i], pool[j] = pool[j], pool[i] })
+	n := 2 + r.IntN(len(pool)-1)
+	var sb strings.Builder
+	sb.WriteString("[{")
+	for i := 0; i < n; i++ {
+		if i > 0 {
+			sb.WriteByte(',')
+		}
+		genStringLit(r, &genCfg{escapes: r.IntN(2) == 0}, []rune(pool[i]), &sb)
+		fmt.Fprintf(&sb, ":%d", i)
+	}
+	sb.WriteString("}]")
+	return []byte(sb.String())
+}
+
+// singleEscapes: strings whose only escape is one \u00XX of a character that has a shorter
+// spelling (or needs none): values and names, upper and lower case hex digits
+func singleEscapes() [][]byte {
+	var out [][]byte
+	cps := []int{0x22, 0x2f, 0x5c, 0x7f, 0x3c, 0x3e, 0x26, 0x41, 0xe9, 0x2028, 0x2029}
+	for c := 0; c < 0x20; c++ {
+		cps = append(cps, c)
+	}
+	for _, c := range cps {
+		for _, f := range []string{"%04x", "%04X"} {
+			e := "\\u" + fmt.Sprintf(f, c)
+			out = append(out, []byte(`["x`+e+`y"]`), []byte(`{"k`+e+`q":1,"k":2}`))
+		}
+	}
+	return out
+}
+
+// reusedNames: an object with few but long names (more than 1 KiB together), then sibling
+// objects that use one of those names again
+func reusedNames(r *rand.Rand) []byte {
+	w := wideObject(r, 2+r.IntN(62), true, -1, false)
+	var first string
+	fmt.Sscanf(string(w[1:]), "%q", &first)
+	return []byte(fmt.Sprintf(`[%s,{%q:1,"z":{%q:2}},%s]`, w, first, first, w))
+}
